@@ -16,12 +16,16 @@
        Mark.add_to_set(old marks) — which C14 characterises exactly (kept unchanged if an equal mark is present
        or a present mark excludes the new one, otherwise the excluded marks removed and the mark inserted at
        its rank) — other tokens are left alone; RemoveMarkStep: the mark is removed from every inline token.
-   Whole add_mark / remove_mark operations (which plan several steps), set_block_type / set_node_markup are
-   evaluated per case by Corr.C13 in Coq on the implementation's output. *)
+   (4) Whole Transform.add_mark / remove_mark operations: the planners (Model/MarkOps.v, compared with the steps the
+       implementation records on every run) emit only add-mark / remove-mark steps over ranges inside [from, to], so
+       however many of the planned steps get applied, the operation changes nothing but marks of tokens inside its
+       range (C13_add_mark_changes_only_marks_in_range, C13_remove_mark_changes_only_marks_in_range).
+   WHICH marks a whole operation leaves, set_block_type / set_node_markup are evaluated per case by Corr.C13 in Coq
+   on the implementation's output. *)
 From Coq Require Import List Arith Bool.
 From PM Require Import Model.Data Model.Mark Model.Tree Model.Resolve Model.Step Spec.Tokens
   Proofs.ReplaceValid Proofs.TokenBasics Proofs.ReplaceTokens Proofs.SliceShape Proofs.TokenLaws
-  Proofs.NodeSteps Proofs.MarkSteps Proofs.MarkPointwise Proofs.Retype.
+  Proofs.NodeSteps Proofs.MarkSteps Proofs.MarkPointwise Proofs.Retype Model.MarkOps Proofs.MarkOpsProofs.
 Import ListNotations.
 Local Open Scope nat_scope.
 
@@ -77,3 +81,47 @@ Theorem C13_retype_keeps_children : forall s from to ty a m structure doc d',
             ++ [TClose] ++ skipn to (DT s doc).
 Proof. exact retype_step_keeps_children. Qed.
 Print Assumptions C13_retype_keeps_children.
+
+(* Whole operations. [plan_add_mark] / [plan_remove_mark] are the steps Transform.add_mark / remove_mark hand to
+   Transform.step, in order; Transform.step raises at the first step that fails and keeps what was applied before, so
+   what gets applied is a prefix [pre] of the plan. [RunV s doc pre d']: the steps of [pre] apply one after the other,
+   each to a valid document, and give d'. Then d' has the size of doc, the same tokens before `from` and after `to`
+   (marks included), and the same token sequence with marks erased. *)
+Theorem C13_add_mark_changes_only_marks_in_range : forall s doc from to mk pre post d',
+  plan_add_mark s doc from to mk = Ok (pre ++ post) -> RunV s doc pre d' ->
+  length (DT s d') = length (DT s doc) /\
+  firstn from (DT s d') = firstn from (DT s doc) /\
+  skipn to (DT s d') = skipn to (DT s doc) /\
+  shs (DT s d') = shs (DT s doc).
+Proof.
+  intros s doc from to mk pre post d' Hp Hr. apply (mark_steps_change_only_marks_in_range s from to pre); [|exact Hr].
+  pose proof (plan_add_mark_in s _ _ _ _ _ Hp) as H. apply Forall_app in H. exact (proj1 H).
+Qed.
+Print Assumptions C13_add_mark_changes_only_marks_in_range.
+
+Theorem C13_remove_mark_changes_only_marks_in_range : forall s doc from to sel pre post d',
+  plan_remove_mark s doc from to sel = Ok (pre ++ post) -> RunV s doc pre d' ->
+  length (DT s d') = length (DT s doc) /\
+  firstn from (DT s d') = firstn from (DT s doc) /\
+  skipn to (DT s d') = skipn to (DT s doc) /\
+  shs (DT s d') = shs (DT s doc).
+Proof.
+  intros s doc from to sel pre post d' Hp Hr. apply (mark_steps_change_only_marks_in_range s from to pre); [|exact Hr].
+  pose proof (plan_remove_mark_in s _ _ _ _ _ Hp) as H. apply Forall_app in H. exact (proj1 H).
+Qed.
+Print Assumptions C13_remove_mark_changes_only_marks_in_range.
+
+(* the hypotheses are met: over the example document doc(p("ab"), blockquote(p("cd"), p("ef"))) of Properties/C01.v,
+   add_mark(2, 11, em) plans one step per paragraph (the first and last clipped to the range), and all three apply *)
+From PM Require Properties.C01.
+Example C13_add_mark_example :
+  let s := Properties.C01.ex_schema in let doc := Properties.C01.ex_doc in let em := {| m_ty := 0%nat; m_attrs := [] |} in
+  plan_add_mark s doc 2 11 em = Ok [SAddMark 2 3 em; SAddMark 6 8 em; SAddMark 10 11 em] /\
+  exists d', RunV s doc [SAddMark 2 3 em; SAddMark 6 8 em; SAddMark 10 11 em] d' /\ d' <> doc.
+Proof.
+  cbv zeta. split; [vm_compute; reflexivity|]. eexists. split.
+  - cbn [RunV]. split; [vm_compute; reflexivity|]. eexists. split; [vm_compute; reflexivity|].
+    split; [vm_compute; reflexivity|]. eexists. split; [vm_compute; reflexivity|].
+    split; [vm_compute; reflexivity|]. eexists. split; [vm_compute; reflexivity|]. reflexivity.
+  - discriminate.
+Qed.
